@@ -274,6 +274,7 @@ pub fn extract_tls_signature_from_client_hello(
     let mut signature_algorithms = Vec::new();
     let mut elliptic_curves = Vec::new();
     let mut elliptic_curve_point_formats = Vec::new();
+    let mut supported_versions: Vec<u16> = Vec::new();
 
     // Parse extensions if present - if not present, we still generate JA4 with empty extension fields
     if let Some(ext_data) = &client_hello.ext {
@@ -304,6 +305,9 @@ pub fn extract_tls_signature_from_client_hello(
                         TlsExtension::EllipticCurves(curves) => {
                             elliptic_curves = curves.iter().map(|c| c.0).collect();
                         }
+                        TlsExtension::SupportedVersions(versions) => {
+                            supported_versions = versions.iter().map(|v| v.0).collect();
+                        }
                         TlsExtension::EcPointFormats(formats) => {
                             elliptic_curve_point_formats = formats.to_vec();
                         }
@@ -317,7 +321,13 @@ pub fn extract_tls_signature_from_client_hello(
         }
     }
 
-    let version = determine_tls_version(&client_hello.version, &extensions);
+    // JA4: the highest non-GREASE supported_versions entry wins over the legacy version
+    let version = supported_versions
+        .iter()
+        .filter(|v| !TLS_GREASE_VALUES.contains(v))
+        .max()
+        .map(|&v| tls_version_from_code(v))
+        .unwrap_or_else(|| determine_tls_version(&client_hello.version, &extensions));
 
     Ok(Signature {
         version,
@@ -329,6 +339,18 @@ pub fn extract_tls_signature_from_client_hello(
         sni,
         alpn,
     })
+}
+
+fn tls_version_from_code(code: u16) -> TlsVersion {
+    match code {
+        0x0304 => TlsVersion::V1_3,
+        0x0303 => TlsVersion::V1_2,
+        0x0302 => TlsVersion::V1_1,
+        0x0301 => TlsVersion::V1_0,
+        0x0300 => TlsVersion::Ssl3_0,
+        0x0002 => TlsVersion::Ssl2_0,
+        other => TlsVersion::Unknown(other),
+    }
 }
 
 pub fn determine_tls_version(
@@ -348,9 +370,9 @@ pub fn determine_tls_version(
         tls_parser::TlsVersion::Tls11 => TlsVersion::V1_1,
         tls_parser::TlsVersion::Tls10 => TlsVersion::V1_0,
         tls_parser::TlsVersion::Ssl30 => TlsVersion::Ssl3_0,
-        _ => {
-            debug!("Unknown/unsupported TLS version {:?}, defaulting to TLS 1.2", legacy_version);
-            TlsVersion::V1_2
+        other => {
+            debug!("Unknown/unsupported TLS version {:?}", legacy_version);
+            TlsVersion::Unknown(other.0)
         }
     }
 }
